@@ -82,6 +82,16 @@ int resume(Task* t) {
     }
 }
 
+// ------------------------------------------------------------------ block lookup by address
+static std::map<uintptr_t, int> block_index;     // start address -> id of the (non-retired) block living there
+static int find_block(const void* p) {
+    auto it = block_index.upper_bound((uintptr_t)p);
+    if (it == block_index.begin()) return -1;
+    --it;
+    const Block& b = E.blocks[it->second];
+    return ((const u8*)p < b.p + (b.size ? b.size : 1)) ? it->second : -1;
+}
+
 // ------------------------------------------------------------------ pointer classification
 PtrInfo classify(const void* p, Task* t, OpRec* rec) {
     PtrInfo r;
@@ -91,7 +101,7 @@ PtrInfo classify(const void* p, Task* t, OpRec* rec) {
         Task* x = &tasks[i];
         if (b >= x->stack_lo && b < x->stack_lo + x->stack_size) { r.cls = (x == t) ? PC_STACK : PC_STACK_OTHER; r.id = i; return r; }
     }
-    for (auto& bl : E.blocks) if (!bl.recycled && b >= bl.p && b < bl.p + (bl.size ? bl.size : 1)) { r.cls = PC_BLOCK; r.id = bl.id; r.disp = bl.disp; r.off = b - bl.p; return r; }
+    { int bi = find_block(b); if (bi >= 0) { const Block& bl = E.blocks[bi]; r.cls = PC_BLOCK; r.id = bl.id; r.disp = bl.disp; r.off = b - bl.p; return r; } }
     if (rec) for (auto& bf : rec->bufs) if (b >= bf.p && b < bf.p + bf.n) { r.cls = PC_BUF; r.id = bf.id; r.off = b - bf.p; return r; }
     return r;
 }
@@ -158,13 +168,19 @@ static void* do_alloc(int gen, size_t n, bool via_libc) {
         if (via_libc) e.stale = (E.cur_opt & 2) != 0;     // libc malloc although an allocator is injected
         e.n = n;
         int ord = rec->nalloc++;
+        if (rec->op.reinj && !rec->reinj_done && t) {
+            // lazy bootstrap: the application's allocator hook brings up its real services on first use and injects them
+            rec->reinj_done = true;
+            E.stats.add("fault_injection_from_inside_a_dependency");
+            nested_inject((int)((rec->op.reinj - 1) / 8), (unsigned)((rec->op.reinj - 1) & 7));
+        }
         bool fail = ord < 64 && ((rec->op.fail >> ord) & 1);
         if (fail) { e.failed = true; rec->alloc_failed = true; E.stats.add("fault_alloc_fail"); return; }
-        u8* base = nullptr; u8* p = nullptr;
+        u8* base = nullptr; u8* p = nullptr; bool reused = false;
         if (E.lifo_reuse && E.last_freed >= 0 && E.blocks[E.last_freed].size == n && !E.blocks[E.last_freed].recycled) {
             // like a LIFO free list: the next request of that size gets the address released last
             Block& old = E.blocks[E.last_freed];
-            old.recycled = true; base = old.base; p = old.p; old.base = nullptr;
+            old.recycled = true; base = old.base; p = old.p; old.base = nullptr; reused = true;
             unpoison(p, n);
             E.stats.add("fault_address_reused");
         } else {
@@ -177,9 +193,9 @@ static void* do_alloc(int gen, size_t n, bool via_libc) {
         int tk = t ? t->id : MAXT;
         b.disp = (tk << 16) | (E.task_blk_seq[tk]++ & 0xFFFF); b.size = n; b.task = t ? t->id : -1; b.op = rec->idx; b.live = true;
         b.via_libc = via_libc; b.freed_op = -1; b.zero_at_free = false; b.wiped_by_memzero = false;
-        fill_block(p, n, (u64)b.disp);
-        if (E.fill != 0) E.stats.add("fault_dirty_alloc");
+        if (!reused) { fill_block(p, n, (u64)b.disp); if (E.fill != 0) E.stats.add("fault_dirty_alloc"); }
         E.blocks.push_back(b);
+        block_index[(uintptr_t)p] = b.id;
         e.p.cls = PC_BLOCK; e.p.id = b.id; e.p.disp = b.disp;
         result = p;
     });
@@ -209,7 +225,7 @@ static void do_free(int gen, void* p, bool via_libc) {
         b.zero_at_free = z;
         b.wiped_by_memzero = covered(b.zeroed, b.size);
         e.n = (z ? 1 : 0) | (b.wiped_by_memzero ? 2 : 0);
-        memset(b.p, 0xDD, b.size);
+        if (!E.lifo_reuse) memset(b.p, 0xDD, b.size);     // (a recycling allocator hands the block out again exactly as it was released)
         poison(b.p, b.size);       // quarantined until the end of the run: use after free stays visible
         E.last_freed = b.id;
     });
@@ -300,6 +316,10 @@ static size_t do_norm(int gen, bool compose, const char* str, char* norm) {
         }
         SeamEvent& e = new_event(rec, compose ? EV_NFC : EV_NFKD, gen);
         std::string in(str);
+        if (E.norm_zero_on_invalid && !compose && rec->op.kind == OP_CRYPT) {
+            bool valid = true; model::nfkd_raw(in, &valid);
+            if (!valid) { e.a.assign(in.begin(), in.end()); E.stats.add("fault_normaliser_rejects_invalid_utf8"); ret = 0; return; }
+        }
         std::string out = model::bound(compose ? model::nfc_raw(in) : model::nfkd_raw(in));
         e.a.assign(in.begin(), in.end());
         e.out.assign(out.begin(), out.end());
@@ -360,8 +380,18 @@ template <int G> struct Gen {
 // side stack before any simulator code runs: a dependency call then costs the caller's stack exactly
 // one return address, like a small real memzero would, so what the library leaves behind on its own
 // stack is neither overwritten nor added to by the simulator (needed by the stack-residue oracle).
+extern "C" { extern void* g_seam_sp; }
+static u64 seam_dispatch(int kind, int gen, u64* a);
 extern "C" u64 seam_entry_c(u64 code, u64* a) {
-    int kind = (int)(code >> 4), gen = (int)(code & 15);
+    // a dependency body may call back into the library (polyseed_inject from a bootstrap hook), whose own dependency calls
+    // must then start below the frames that are live on this side stack
+    void* saved = g_seam_sp;
+    g_seam_sp = (void*)(((uintptr_t)__builtin_frame_address(0) - 1024) & ~(uintptr_t)63);
+    u64 r = seam_dispatch((int)(code >> 4), (int)(code & 15), a);
+    g_seam_sp = saved;
+    return r;
+}
+static u64 seam_dispatch(int kind, int gen, u64* a) {
     switch (kind) {
     case 0: do_rand(gen, (void*)a[0], (size_t)a[1]); return 0;
     case 1: do_kdf(gen, (const u8*)a[0], (size_t)a[1], (const u8*)a[2], (size_t)a[3], a[4], (u8*)a[5], (size_t)a[6]); return 0;
@@ -408,6 +438,7 @@ void make_deps(polyseed_dependency* d, int gen, unsigned opt) {
 void reset_run() {
     for (auto& b : E.blocks) if (b.base) { unpoison(b.p, b.size); free(b.base); }
     E.blocks.clear();
+    block_index.clear();
     E.last_freed = -1;
     memset(E.task_blk_seq, 0, sizeof E.task_blk_seq);
     E.coord_rec = nullptr;
@@ -433,6 +464,21 @@ void boundary_tick(Task* t) {
     if (--t->countdown <= 0) task_yield(t, TS_PREEMPTED);
 }
 
+// Memory that is mapped read-only (constant tables, RELRO) cannot take part in a data race: loads from it are not tracked.
+static std::vector<std::pair<uintptr_t, uintptr_t>> ro_ranges;
+void clear_block_index() { block_index.clear(); }
+void scan_readonly_mappings() {
+    ro_ranges.clear();
+    FILE* f = fopen("/proc/self/maps", "r");
+    if (!f) return;
+    char line[512];
+    while (fgets(line, sizeof line, f)) {
+        unsigned long lo, hi; char perms[8];
+        if (sscanf(line, "%lx-%lx %7s", &lo, &hi, perms) == 3 && perms[1] == '-' && strstr(line, "polysim")) ro_ranges.push_back({lo, hi});
+    }
+    fclose(f);
+}
+
 void monitor_access(const void* addr, unsigned size, bool store) {
     Task* t = tls_task;
     if (!t || (!E.monitor && !t->watch_p)) return;
@@ -449,7 +495,9 @@ void monitor_access(const void* addr, unsigned size, bool store) {
             return;
         }
     }
-    for (auto& bl : E.blocks) if (!bl.recycled && b >= bl.p && b < bl.p + bl.size) {
+    if (!store) for (auto& r : ro_ranges) if ((uintptr_t)addr >= r.first && (uintptr_t)addr < r.second) return;
+    if (int bi = find_block(b); bi >= 0) {
+        const Block& bl = E.blocks[bi];
         if (bl.task != t->id && bl.task >= 0 && !E.mon_violation.found && E.report_ownership) {
             E.mon_violation.found = true; E.mon_violation.oracle = "O"; E.mon_violation.cls = "foreign-block";
             E.mon_violation.msg = strf("task %d %s %u bytes in block #%d owned by task %d", t->id, store ? "stores" : "loads", size, bl.id, bl.task);
